@@ -30,7 +30,7 @@ import (
 )
 
 type kind struct {
-	K     string `json:"k"` // file dir missing deleted link outside
+	K     string `json:"k"` // file dir missing deleted link outside relink
 	To    int    `json:"to,omitempty"`
 	Spell string `json:"spell,omitempty"` // rel abs dotdot
 }
@@ -38,6 +38,10 @@ type kind struct {
 func kindsFor(n int, thorough bool) []kind {
 	ks := []kind{{K: "file"}, {K: "dir"}, {K: "missing"}, {K: "deleted"}, {K: "outside"}, {K: "outside", Spell: "abs"}}
 	for j := 0; j < n; j++ {
+		if n > 1 && (n <= 3 || thorough) {
+			// a link that layer 1 re-points from entry j to entry j+1: its resolution depends on the view
+			ks = append(ks, kind{K: "relink", To: j, Spell: "rel"})
+		}
 		ks = append(ks, kind{K: "link", To: j, Spell: "rel"}, kind{K: "link", To: j, Spell: "abs"})
 		if thorough {
 			ks = append(ks, kind{K: "link", To: j, Spell: "dotdot"})
@@ -58,8 +62,11 @@ func build(g []kind) [][]byte {
 		case "dir":
 			l0 = append(l0, imgkit.Dir(name(i)), imgkit.File(name(i)+"/child", "c"))
 		case "deleted":
-			l0 = append(l0, imgkit.File(name(i), "deleted"))
+			l0 = append(l0, imgkit.File(name(i), "content-of-"+name(i)))
 			l1 = append(l1, imgkit.Whiteout(name(i)))
+		case "relink":
+			l0 = append(l0, imgkit.Sym(name(i), fmt.Sprintf("e%d", k.To)))
+			l1 = append(l1, imgkit.Sym(name(i), fmt.Sprintf("e%d", (k.To+1)%len(g))))
 		case "outside":
 			// a target that climbs above the image root, spelled relative or absolute; if it were
 			// clamped to the root it would hit the file "x"
@@ -93,12 +100,21 @@ type expect struct {
 	hops  int
 }
 
-// reference resolver
-func resolve(g []kind, i, max int) expect {
+// reference resolver for the view after layer `view` (0: only the first layer applied)
+func resolve(g []kind, i, max, view int) expect {
 	cur, hops := i, 0
 	seen := map[int]bool{}
 	for {
 		k := g[cur]
+		if k.K == "deleted" && view == 0 {
+			k.K = "file"
+		}
+		if k.K == "relink" {
+			k.K = "link"
+			if view >= 1 {
+				k.To = (k.To + 1) % len(g)
+			}
+		}
 		switch k.K {
 		case "file", "dir":
 			if hops <= max {
@@ -152,6 +168,9 @@ func graphStr(g []kind) string {
 		if k.K == "link" {
 			s = fmt.Sprintf("->e%d(%s)", k.To, k.Spell)
 		}
+		if k.K == "relink" {
+			s = fmt.Sprintf("->e%d,layer1:->e%d", k.To, (k.To+1)%len(g))
+		}
 		if k.K == "outside" && k.Spell == "abs" {
 			s = "outside(abs)"
 		}
@@ -169,6 +188,13 @@ type replayT struct {
 
 // checkGraph loads the image once per depth and queries every entry; returns number of queries.
 func checkGraph(r *ev.Run, g []kind, depths []int) {
+	checkGraphOrder(r, g, depths, false)
+	// the views of one image share their nodes: query them in the opposite order on a fresh load
+	// (at the largest depth only), so that no view's answers depend on what was asked before
+	checkGraphOrder(r, g, depths[len(depths)-1:], true)
+}
+
+func checkGraphOrder(r *ev.Run, g []kind, depths []int, rev bool) {
 	tars := build(g)
 	for _, max := range depths {
 		cfg := image.DefaultConfig()
@@ -179,12 +205,16 @@ func checkGraph(r *ev.Run, g []kind, depths []int) {
 			return
 		}
 		cls, _ := img.ChainLayers()
-		for vi := 1; vi < len(cls); vi++ {
+		order := []int{0, 1, 2}
+		if rev {
+			order = []int{2, 1, 0}
+		}
+		for _, vi := range order {
 			fsys := cls[vi].FS()
 			for i := range g {
-				want := resolve(g, i, max)
+				want := resolve(g, i, max, vi)
 				viol := func(op, key, detail string) {
-					r.Violation(key, fmt.Sprintf("graph {%s} max=%d view %d %s(%s): %s (reference: %s after %d hops at e%d)", graphStr(g), max, vi, op, name(i), detail, want.class, want.hops, want.final),
+					r.Violation(key, fmt.Sprintf("graph {%s} max=%d view %d (views queried %v) %s(%s): %s (reference: %s after %d hops at e%d)", graphStr(g), max, vi, order, op, name(i), detail, want.class, want.hops, want.final),
 						replayT{Graph: g, Max: max, Entry: i, Op: op})
 				}
 				r.Evals.Add(3)
@@ -345,5 +375,5 @@ func main() {
 	}
 	os.RemoveAll(base)
 	r.Set("bound", map[string]any{"entries_completed": completed, "depths": depths})
-	r.Finish(fmt.Sprintf("every kind assignment to n<=%d entries (file, dir, missing, deleted by layer 1, outside-root symlink spelled relative (../../x) and absolute (/d/../../x), symlink to each entry spelled relative/absolute%s) x MaxSymlinkDepth 0..6 x every entry x {Stat, Open+Read, ReadDir} on the final view and on the intermediate view (whiteout nodes still present) of the real image vs the reference resolver; each query under a 60 s watchdog; non-trivial = queries whose chain has >=1 hop", maxN, map[bool]string{true: "/with ..", false: ""}[r.Thorough()]), completed >= maxN)
+	r.Finish(fmt.Sprintf("every kind assignment to n<=%d entries (file, dir, missing, deleted by layer 1, outside-root symlink spelled relative (../../x) and absolute (/d/../../x), symlink to each entry spelled relative/absolute%s, symlink re-pointed by layer 1 from entry j to j+1 (n<=3; thorough all n)) x MaxSymlinkDepth 0..6 x every entry x {Stat, Open+Read, ReadDir} on all three views (layer-0 view where deleted entries still exist, intermediate view with whiteout nodes, final view) of the real image vs the per-view reference resolver, views queried 0,1,2 and, on a fresh load at depth 6, 2,1,0; each query under a 60 s watchdog; non-trivial = queries whose chain has >=1 hop", maxN, map[bool]string{true: "/with ..", false: ""}[r.Thorough()]), completed >= maxN)
 }
